@@ -56,6 +56,8 @@ func main() {
 		os.Exit(cmdDump(os.Args[2:]))
 	case "list":
 		os.Exit(cmdList(os.Args[2:]))
+	case "replay":
+		os.Exit(cmdReplay(os.Args[2:]))
 	}
 	fmt.Fprintln(os.Stderr, "unknown command", os.Args[1])
 	os.Exit(2)
@@ -192,6 +194,7 @@ func cmdCheck(args []string) int {
 		opts.agree = true
 	}
 
+	replaySolveOpts = opts
 	var all []*Obligation
 	var funcs []string
 	notes := map[string]bool{}
